@@ -118,6 +118,16 @@ def wrapper_part(ctx, r):
                         label='c07-batch')
     c15.validate(ctx, tr, f'c07-wrap-{i}', invs=inv)
     n += len(tr)
+  # uncompiled execution of the wrapper stack (cheap on the scripted environment): eager = eager again = compiled, the input
+  # state is not modified, and the eager history is a behaviour of the specification
+  for i in range(1 if q else 6):
+    L, R, B = r.randint(3, 6), r.randint(1, 2), r.randint(2, 3)
+    scheds = [[1 if r.random() < 0.2 else 0 for _ in range(12)] for _ in range(B)]
+    tr = c15.run_config(ctx, r, L, R, r.choice(['wrap', 'create']), scheds, 2 * L + 2, use_eval=False, random_actions=True,
+                        label='c07-eager', eager=True)
+    if tr:
+      c15.validate(ctx, tr, f'c07-eager-{i}', invs=inv)
+      n += len(tr)
   # poisoned neighbour: member 0 receives NaN actions from some step on; everyone else must not notice
   for i in range(2 if q else 12):
     L, R, B = r.randint(4, 9), r.randint(1, 2), r.randint(3, 6)
@@ -173,7 +183,7 @@ def run(ctx):
               'batches of 2-8 with distinct per-member (q, qd, act): pointwise and non-interference residuals <= 1e-9; bundled '
               'envs reset+step under vmap vs alone. non-trivial = every batched case.')
   ctx.assumptions = ['vmap vs solo are different XLA programs: tolerance 1e-9 relative in float64 (1e-5 for the generalized pipeline with active contacts, whose iterative solver amplifies round-off, and for the float32 bundled envs)', 'contact scenes are shallow (lowest geom between 5 mm inside and 5 cm above the plane)',
-                     'jit-vs-eager is compared on a handful of cases only (an eager step costs seconds)',
+                     'jit-vs-eager is compared for the wrapper stacks (scripted environment) only: an eager physics step costs seconds',
                      'members whose own state is non-finite are excluded; their neighbours are not']
   wrapper_part(ctx, r)
   os.makedirs(tlc.WORK, exist_ok=True)
